@@ -18,7 +18,7 @@ ANCHORS = ["runlengtharray.py::RunLengthArray._get_position", "runlengtharray.py
            "runlengtharray.py::RunLengthArray.__getitem__", "mixin.py::NPSIndexable.__getitem__"]
 KINDS = ["int", "list", "array", "boolarray", "boollist", "rlmask", "cmpmask", "slice", "windows"]
 FLOOR_TAGS = ["k:" + k for k in KINDS] + ["step:+1", "step:+k", "step:-1", "step:-k", "bounds:oob", "bounds:in", "result:empty", "mask:allfalse", "mask:alltrue", "int:negative",
-                                          "kind:b", "kind:i", "kind:u", "kind:f", "index:readonly", "receiver:subclass", "step:huge", "windows:narrow-dtype", "windows:len-exceeds-dtype"]
+                                          "kind:b", "kind:i", "kind:u", "kind:f", "index:readonly", "k:virtual", "virtual:2**53", "virtual:2**31", "receiver:subclass", "step:huge", "windows:narrow-dtype", "windows:len-exceeds-dtype"]
 FLOOR_MONITORS = ["c15:compare", "c15:canonical", "inv:rla", "c15:arguments-unchanged"]
 FP_STRICT = True       # a floating-point event inside the library that the dense computation does not have is a violation (shard.FpMonitor)
 N_RANDOM = {"quick": 24000, "thorough": 300000}
@@ -48,7 +48,77 @@ def mk_case(dtype, vals, kind, idx, **kw):
     return c
 
 
+def run_virtual(case):
+    """an array far too long to exist densely (up to 2**62 elements), 0 everywhere except 1 on [lo, hi): run-length encoded it is three runs.
+    Slices (and slices of slices) are probed element by element against python's own range arithmetic."""
+    lib = CTX.lib
+    L, lo, hi = case["L"], case["lo"], case["hi"]
+    tags = ["k:virtual", "kind:i", "virtual:2**%d" % (L.bit_length() - 1)]
+    b = attempt(lambda: lib.RunLength2dArray.from_intervals(np.array([lo]), np.array([hi]), L)[0])
+    if not b.ok or not isinstance(b.value, lib.RunLengthArray):
+        return undefined("cannot build the virtual array: %r" % (b,), tags)
+    r = b.value
+    dense = lambda p: 1 if lo <= p < hi else 0
+    CTX.tick("c15:compare")
+    if len(r) != L:
+        return violated("virtual array of length %d reports len %d" % (L, len(r)), tags)
+    positions = range(L)
+    desc = "array of %d elements (1 on [%d, %d))" % (L, lo, hi)
+    for sl in case["slices"]:
+        sub = attempt(lambda: r[sl])
+        positions = positions[sl]
+        desc += "[%s]" % short(sl)
+        st = 1 if sl.step is None else sl.step
+        tags.append("step:+1" if st == 1 else ("step:+k" if st > 0 else ("step:-1" if st == -1 else "step:-k")))
+        if abs(st) >= 2 ** 31:
+            tags.append("step:huge")
+        if not sub.ok:
+            return violated("%s raised %s: %s" % (desc, type(sub.exc).__name__, sub.exc), tags)
+        r = sub.value
+        if not isinstance(r, lib.RunLengthArray):
+            return violated("%s returned a %s" % (desc, type(r).__name__), tags)
+        if len(r) != len(positions):
+            return violated("%s has %d elements, python's range arithmetic says %d" % (desc, len(r), len(positions)), tags)
+        if len(positions) == 0:
+            tags.append("result:empty")
+            return held(tags, True)
+        c = rl.canonical(r, joined=False) if len(positions) <= 5000 else None
+        if c:
+            return violated("%s is not canonical: %s" % (desc, c), tags + ["not-canonical"])
+        # probe both ends and around every place where the value changes
+        ks = {0, len(positions) - 1, len(positions) // 2}
+        for edge in (lo, hi):
+            if positions.step > 0:
+                k0 = (edge - positions.start) // positions.step
+            else:
+                k0 = (positions.start - edge) // (-positions.step)
+            ks.update(k for k in range(k0 - 3, k0 + 4) if 0 <= k < len(positions))
+        for k in sorted(ks):
+            for kk in (k, k - len(positions)):
+                g = attempt(lambda: int(r[kk]))
+                if not g.ok or g.value != dense(positions[k]):
+                    return violated("%s[%d] gives %s, the dense array has %d at position %d" % (desc, kk, repr(g) if not g.ok else g.value, dense(positions[k]), positions[k]), tags + ["virtual-probe"])
+    return held(tags, True)
+
+
+def gen_virtual(rng):
+    L = rng.choice([2 ** 31 - 1, 2 ** 31, 2 ** 31 + 5, 2 ** 32 + 7, 2 ** 40, 2 ** 53 + 1000, 2 ** 53 + 1000, 2 ** 62, 10 ** 6 + 3])
+    near = [0, 5, L - 1, L - 7, L // 2] + [x for x in (2 ** 31 - 1, 2 ** 31, 2 ** 32, 2 ** 53, 2 ** 53 + 1) if x < L]
+    lo = rng.choice(near)
+    hi = rng.choice([x for x in near + [L, lo + 1, lo + 2 ** 20] if lo < x <= L])
+
+    def sl(n):
+        b = lambda: rng.choice([None, None, rng.randint(-n - 2, n + 2), rng.choice([0, 1, 7, n - 3, -3, n // 2])])
+        return slice(b(), b(), rng.choice([None, 1, 2, 3, -1, -2, -3, 7, 10, 2 ** 31, -(2 ** 31), 2 ** 20 + 1]))
+    s1 = sl(L)
+    n1 = len(range(L)[s1])
+    slices = [s1] + ([sl(n1)] if n1 and rng.random() < 0.4 else [])
+    return {"kind": "virtual", "dtype": "int64", "vals": [], "idx": None, "L": L, "lo": lo, "hi": hi, "slices": slices}
+
+
 def run(case):
+    if case["kind"] == "virtual":
+        return run_virtual(case)
     lib = CTX.lib
     RLA = lib.RunLengthArray
     dt = np.dtype(case["dtype"])
@@ -262,6 +332,10 @@ def directed():
     yield mk_case("int64", [5], "rlmask", [True])
     yield mk_case("int64", [5], "rlmask", [False])
     yield mk_case("int64", [5, 5, 6], "windows", [[0, 0, 2, 1], [3, 1, 3, 2]])
+    import random as _random
+    vr = _random.Random(1553)
+    for _ in range(300):
+        yield gen_virtual(vr)
 
 
 def sweep(tier):
@@ -284,6 +358,8 @@ def _with_swap(rng, c):
 
 
 def random_case(rng, tier):
+    if rng.random() < 0.06:
+        return gen_virtual(rng)
     c = _with_swap(rng, gen_case(rng, tier))
     if rng.random() < 0.1:
         c["subclass"] = True
@@ -291,6 +367,8 @@ def random_case(rng, tier):
 
 
 def classify(case, res):
+    if case["kind"] == "virtual":
+        return None
     if case["kind"] == "slice":
         s, L = case["idx"], len(case["vals"])
         oob = lambda x: x is not None and (x >= L or x < -L)
